@@ -254,6 +254,7 @@ fn issuer_for(k: &RealKey, zoo_pkey: Option<&ZooKey>) -> IssuerReal {
 
 pub fn run(prop: &str, tier: &str, replay: Option<&str>) -> i32 {
     run::set_replay(replay);
+    run::RANDOMISED_SIGNER.store(true, std::sync::atomic::Ordering::Relaxed);
     let thorough = tier == "thorough";
     let mut rep = Report::new(prop, tier);
     let backend = if cfg!(feature = "aws") { "aws-lc-rs" } else if cfg!(feature = "ring") { "ring" } else { "no crypto (remote keys only)" };
